@@ -495,8 +495,17 @@ def show(t, n=160):
 
 
 def eval_term(t, env):
-    """exact value of a scalar term under {parameter name: Fraction}; raises ValueError when it cannot"""
+    """exact value of a scalar term under {parameter name: Fraction}; `env['__terms__']` may bind whole sub-terms by
+    key (a shape extent, an isinstance test); raises ValueError when it cannot"""
     from fractions import Fraction
+    bound = env.get('__terms__') or {}
+    if key(t) in bound:
+        return Fraction(bound[key(t)])
+    if t[0] == 'bin' and t[1] in ('Mod', 'FloorDiv'):
+        a, b = eval_term(t[2], env), eval_term(t[3], env)
+        if b == 0:
+            raise ValueError('division by zero')
+        return Fraction(a % b) if t[1] == 'Mod' else Fraction(a // b)
     if t[0] == 'const' and isinstance(t[1], (int, float)) and not isinstance(t[1], bool):
         return Fraction(t[1]) if isinstance(t[1], int) else Fraction(str(t[1]))
     if t[0] == 'param' and t[1] in env:
@@ -508,6 +517,8 @@ def eval_term(t, env):
                 nm = a.name[len("<('param', '"):-3]
                 if nm in env:
                     return Rat.const(Fraction(env[nm]))
+            if isinstance(a, Sym) and a.name.startswith('<') and a.name[1:-1] in bound:
+                return Rat.const(Fraction(bound[a.name[1:-1]]))
             return None
         r = subst(t[1], f)
         if r.is_const():
@@ -542,6 +553,8 @@ def eval_cond(c, env):
         return all(vals) if c[1] == 'and' else any(vals)
     if c[0] == 'const':
         return bool(c[1])
+    if key(c) in (env.get('__terms__') or {}):
+        return bool(env['__terms__'][key(c)])
     raise ValueError('cannot evaluate %s' % key(c)[:80])
 
 
